@@ -113,6 +113,11 @@ func runC12Reentrant(c *eng.Ctx, next func() (int, bool)) {
 		// the scope BETWEEN the instance's scope and the ancestor it closes is the one that is closed
 		"scoped-instance-closes-the-grandparent:middle-scope-closed-directly",
 		"scoped-instance-closes-the-provider-while-the-grandparent-chain:middle-scope-closed-directly",
+		// the instance lives in a TOP-LEVEL scope (created by the provider, no parent scope) or in the
+		// provider's root scope (closed through the handle Resolve[godi.Scope](provider) returns)
+		"top-level-scope-instance-closes-the-provider:own-scope-closed-directly",
+		"top-level-scope-instance-closes-the-provider:own-scope-closed-by-cancel",
+		"root-scope-instance-closes-the-provider:root-scope-closed-through-its-handle",
 		// another instance of the scope that is closed first fails to close: that scope's Close reports it,
 		// although the instance was disposed by the ancestor's Close running inside it
 		"scoped-instance-closes-the-parent:own-scope-closed-directly:another-instance-of-it-fails",
@@ -125,6 +130,24 @@ func runC12Reentrant(c *eng.Ctx, next func() (int, bool)) {
 		}
 		c.R.Begin(idx)
 		reCase(c, "C12", idx, v)
+	}
+}
+
+// runC13Reentrant: the hang clause of the re-entrant closes, for "an operation that overlaps a
+// Close ... never hangs" (closing the provider from inside the Close of a scope it tracks).
+func runC13Reentrant(c *eng.Ctx, next func() (int, bool)) {
+	for _, v := range []string{
+		"scoped-instance-closes-the-provider:own-scope-closed-directly",
+		"top-level-scope-instance-closes-the-provider:own-scope-closed-directly",
+		"top-level-scope-instance-closes-the-provider:own-scope-closed-by-cancel",
+		"root-scope-instance-closes-the-provider:root-scope-closed-through-its-handle",
+	} {
+		idx, mine := next()
+		if !mine {
+			continue
+		}
+		c.R.Begin(idx)
+		reCase(c, "C13", idx, v)
 	}
 }
 
@@ -152,8 +175,8 @@ func init() {
 
 func reCase(c *eng.Ctx, prop string, idx int, variant string) {
 	viol := func(clause, detail string) {
-		if (prop == "C11") != (clause == "descendant-instance-closed-after-ancestor-instance") {
-			return // the order is C11's, everything else C12's
+		if (prop == "C11") != (clause == "descendant-instance-closed-after-ancestor-instance") || prop == "C13" {
+			return // the order is C11's, a hang C12's and C13's, everything else C12's
 		}
 		c.R.Violation(eng.Violation{Prop: prop, Clause: clause, Sig: prop + "/" + clause + ":close-called-from-inside-a-close-method:" + variant, Case: idx, CaseID: "reentrant-close-" + variant,
 			Detail: variant + ": " + detail, Replay: map[string]any{"fixture": "reentrant-close", "variant": variant}})
@@ -257,6 +280,22 @@ func reCase(c *eng.Ctx, prop string, idx int, variant string) {
 		_, err = godi.Resolve[*reCloser](child)
 		w.target = parent.Close
 		outer = child.Close
+	case "top-level-scope-instance-closes-the-provider:own-scope-closed-directly":
+		_, err = godi.Resolve[*reCloser](parent)
+		w.target = prov.Close
+		outer = parent.Close
+	case "top-level-scope-instance-closes-the-provider:own-scope-closed-by-cancel":
+		_, err = godi.Resolve[*reCloser](parent)
+		w.target = prov.Close
+		outer = func() error { cancel(); return nil }
+		byWatcher = true
+	case "root-scope-instance-closes-the-provider:root-scope-closed-through-its-handle":
+		var root godi.Scope
+		if root, err = godi.Resolve[godi.Scope](prov); err == nil {
+			_, err = godi.Resolve[*reCloser](prov)
+			w.target = prov.Close
+			outer = root.Close
+		}
 	case "scoped-instance-closes-the-grandparent:middle-scope-closed-directly":
 		_, err = godi.Resolve[*reCloser](child)
 		w.target = parent.Close
@@ -292,10 +331,10 @@ func reCase(c *eng.Ctx, prop string, idx int, variant string) {
 	finished := make(chan struct{})
 	go func() { outerErr = <-done; close(finished) }()
 	if v := awaitOrDiagnose(finished, 20*time.Second); !v.Done {
-		if prop != "C12" {
+		if prop != "C12" && prop != "C13" {
 			c.R.Inconclusive(idx, "re-entrant close case did not finish (the hang is C12's to report): the close order cannot be judged")
 		} else if v.Deadlock {
-			c.R.Violation(eng.Violation{Prop: "C12", Clause: "hang", Sig: "C12/hang:close-called-from-inside-a-close-method:" + variant + ":" + innermostGodiFn(v.Dump), Case: idx, CaseID: "reentrant-close-" + variant,
+			c.R.Violation(eng.Violation{Prop: prop, Clause: "hang", Sig: prop + "/hang:close-called-from-inside-a-close-method:" + variant + ":" + innermostGodiFn(v.Dump), Case: idx, CaseID: "reentrant-close-" + variant,
 				Detail: fmt.Sprintf("%s: the Close never returned; goroutines stuck inside godi:\n%s", variant, v.Dump), Replay: map[string]any{"fixture": "reentrant-close", "variant": variant}})
 		} else {
 			c.R.Inconclusive(idx, "re-entrant close case did not finish within the watchdog and no goroutine is provably stuck inside godi")
@@ -318,10 +357,10 @@ func reCase(c *eng.Ctx, prop string, idx int, variant string) {
 		}()
 		if v := awaitOrDiagnose(returned, 20*time.Second); !v.Done {
 			w.innerDone.Store(-1) // releases the poller
-			if prop != "C12" {
+			if prop != "C12" && prop != "C13" {
 				c.R.Inconclusive(idx, "re-entrant close case did not finish (the hang is C12's to report): the close order cannot be judged")
 			} else if v.Deadlock {
-				c.R.Violation(eng.Violation{Prop: "C12", Clause: "hang", Sig: "C12/hang:close-called-from-inside-a-close-method:" + variant + ":" + innermostGodiFn(v.Dump), Case: idx, CaseID: "reentrant-close-" + variant,
+				c.R.Violation(eng.Violation{Prop: prop, Clause: "hang", Sig: prop + "/hang:close-called-from-inside-a-close-method:" + variant + ":" + innermostGodiFn(v.Dump), Case: idx, CaseID: "reentrant-close-" + variant,
 					Detail: fmt.Sprintf("%s: the Close called from the instance's Close method never returned; goroutines stuck inside godi:\n%s", variant, v.Dump), Replay: map[string]any{"fixture": "reentrant-close", "variant": variant}})
 			} else {
 				c.R.Inconclusive(idx, "re-entrant close case (closed by the context watcher) did not finish within the watchdog and no goroutine is provably stuck inside godi")
